@@ -317,7 +317,7 @@ class C12(Check):
             return False
         ybar = float(ps.chief(spec['ftype'], mf)[0][-1])
         Fs = max(self.Lsc, abs(float(ps.t_obj)) if math.isfinite(ps.t_obj) else 0.0, abs(float(ps.EPL())))
-        if not math.isfinite(ybar) or 1e-5 * Fs / max(abs(ybar), 1e-300) > 1e-4:
+        if not math.isfinite(ybar) or 1e-11 * Fs / max(abs(ybar), 1e-300) > 1e-5:
             out.cls('paraxial_scale_ill_conditioned')
             return False
         return True
@@ -353,7 +353,8 @@ class C12(Check):
             # the library derives its paraxial scale from a real ray at field 1e-10, whose image height carries the
             # absolute rounding of the trace (~1e-15 x coordinate scale): relative noise 1e-5 Fs/|ybar| (in per cent: x100)
             Fs = max(self.Lsc, abs(float(ps.t_obj)) if math.isfinite(ps.t_obj) else 0.0, abs(float(ps.EPL())))
-            noise = 5e-3 * Fs / max(abs(ybar), 1e-300)
+            # (measured on the unchanged tree: at most 4e-13 Fs/|ybar| per cent over generated lenses; allowed: 1e-9)
+            noise = 1e-9 * Fs / max(abs(ybar), 1e-300)
             out.close('distortion_is_departure_from_paraxial_height', got[fin], want[fin], atol=1e-5 + noise, rtol=1e-6,
                       dtype=dtype, ftype=spec['ftype'])
 
@@ -386,7 +387,11 @@ class C12(Check):
                 xp, yp = ybar * np.radians(HX * mf) / tm, ybar * np.radians(HY * mf) / tm
         # a positive field angle in x images to the same side as a positive field angle in y (rotational symmetry):
         # the predicted x uses the same sign convention as the real x of the traced grid
-        sgn = np.sign(np.nansum(xr * xp)) or 1.0
+        # sign convention of the x field, read off a real chief ray at a very small x field (free of distortion; the whole
+        # grid cannot be used for this: with hundreds of per cent of distortion its points lie across the axis)
+        tw.trace_generic(np.array([1e-4]), np.zeros(1), np.zeros(1), np.zeros(1), w)
+        x_small = float(np.array(tw.surface_group.x[-1], dtype=float)[0])
+        sgn = (np.sign(x_small * ybar) or 1.0) if math.isfinite(x_small) else 1.0
         xp = xp * sgn
         delta = np.sqrt((xp - xr) ** 2 + (yp - yr) ** 2)
         rp = np.sqrt(xp ** 2 + yp ** 2)
@@ -394,7 +399,7 @@ class C12(Check):
             want = float(np.nanmax(100 * delta / rp))
         if math.isfinite(want):
             Fs = max(self.Lsc, abs(float(ps.t_obj)) if math.isfinite(ps.t_obj) else 0.0, abs(float(ps.EPL())))
-            noise = 1e-5 * Fs / max(abs(ybar), 1e-300)          # relative noise of the library's 1e-10-field scale
+            noise = 1e-11 * Fs / max(abs(ybar), 1e-300)         # relative noise of the library's 1e-10-field scale
             out.close('grid_max_distortion', float(gd.data['max_distortion']), want, rtol=1e-5, atol=1e-5 + 300 * noise)
             out.close('grid_predicted_y', np.asarray(gd.data['yp'], dtype=float), yp, rtol=1e-6 + noise,
                       atol=(1e-9 + noise) * abs(ybar))
